@@ -252,6 +252,21 @@ class RealHistory:
         self.unstable = []
 
     def atomf(self, name):
+        if self.atom_mode == 'mixed':
+            # every atom object comes from somewhere else than the one before: made now, held from earlier,
+            # made by another engine - a fact and the goal that looks it up rarely hold the same object
+            self._mix = getattr(self, '_mix', 0) + 1
+            k = self._mix % 3
+            if k == 0:
+                return self.yp.atom(name)
+            if k == 1:
+                a = self._held.get(name)
+                if a is None:
+                    a = self._held[name] = self.yp.atom(name)
+                return a
+            if self._other is None:
+                self._other = self.real.engine()
+            return self._other.atom(name)
         if self.atom_mode == 'held':
             a = self._held.get(name)
             if a is None:
